@@ -19,6 +19,7 @@
 (*       acnt   : [comp -> Nat]      registry.Archetypes (rare component)  *)
 (*       cache  : Seq(cacheEntry)    cache.filters                         *)
 (*       err    : STRING             "" or the reason a Go panic was hit   *)
+(*       res    : [type -> value]    Resources.resources (nil = absent)    *)
 (* table     = [arch, rows: Seq(handle), col: [comp -> Seq(value)] (length *)
 (*              cap: the memory beyond len is modelled), tg: [relcomp ->   *)
 (*              handle], free, cap]                                        *)
@@ -70,7 +71,7 @@ InitStorage ==
      archs |-> <<[NewArch({}) EXCEPT !.tables = <<1>>]>>,
      graph |-> <<[mask |-> {}, nbr |-> EmptyFn, arch |-> 1]>>,
      cidx |-> [c \in Comps |-> <<>>], acnt |-> [c \in Comps |-> 0],
-     cache |-> <<>>, err |-> "",
+     cache |-> <<>>, err |-> "", res |-> EmptyFn,
      lk |-> [bits |-> [i \in 1..MaxLocks |-> 0], len |-> 0, next |-> 0, avail |-> 0, mask |-> {}],
      qs |-> EmptyFn]
 
@@ -678,8 +679,18 @@ BReset(s) ==
                                                                 !.relT = [c \in DOMAIN @ |-> EmptyFn],
                                                                 !.tgtT = EmptyFn]], ai + 1)
     IN Go([s EXCEPT !.pool = <<>>, !.pnext = 0, !.pavail = 0, !.eidx = <<>>, !.isTgt = <<>>, !.cache = <<>>,
+                    !.res = EmptyFn,      \* Resources.reset (resources.go:64-68), called by World.Reset
                     !.lk = [bits |-> [i \in 1..MaxLocks |-> 0], len |-> 0, next |-> 0, avail |-> 0, mask |-> {}],
                     !.qs = EmptyFn], 1)
+
+(***************************************************************************)
+(* Resources (resources.go:23-62): a slot per resource id, nil = absent.   *)
+(***************************************************************************)
+BResAdd(s, t, v)  == IF t \in DOMAIN s.res THEN Fail(s, "resource was already added")
+                     ELSE [s EXCEPT !.res = Merge(@, Single(t, v))]
+BResRemove(s, t)  == IF t \notin DOMAIN s.res THEN Fail(s, "resource is not present")
+                     ELSE [s EXCEPT !.res = Drop(@, {t})]
+BResSet(s, t, v)  == [s EXCEPT !.res[t] = v]      \* a write through the pointer Get returns
 
 (***************************************************************************)
 (* Unsafe.DumpEntities / LoadEntities (unsafe.go:145-206).                 *)
